@@ -294,6 +294,8 @@ impl InitMsg {
         let rand = SystemRandom::new();
         let mut salt = [0; 4];
         rand.fill(&mut salt).unwrap();
+        #[cfg(dswd_vpncloud_verif)]
+        crate::verif::fill("init.msg_salt", &mut salt);
         let mut public_key = [0; ED25519_PUBLIC_KEY_LEN];
         public_key.clone_from_slice(key.public_key().as_ref());
         let hash = Self::calculate_hash(&public_key, &salt);
@@ -403,6 +405,8 @@ impl<P: Payload> InitState<P> {
         let mut hash = [0; SALTED_NODE_ID_HASH_LEN];
         let rng = SystemRandom::new();
         rng.fill(&mut hash[0..4]).unwrap();
+        #[cfg(dswd_vpncloud_verif)]
+        crate::verif::fill("init.node_id_salt", &mut hash[0..4]);
         hash[4..].clone_from_slice(&node_id);
         let d = digest::digest(&digest::SHA256, &hash);
         hash[4..].clone_from_slice(&d.as_ref()[..16]);
@@ -468,6 +472,8 @@ impl<P: Payload> InitState<P> {
     fn create_ecdh_keypair(&self) -> (EcdhPrivateKey, EcdhPublicKey) {
         let rand = SystemRandom::new();
         let ecdh_private_key = EcdhPrivateKey::generate(&X25519, &rand).unwrap();
+        #[cfg(dswd_vpncloud_verif)]
+        let ecdh_private_key = crate::verif::ecdh_key("init.ecdh", ecdh_private_key);
         let public_key = ecdh_private_key.compute_public_key().unwrap();
         let mut vec = SmallVec::<[u8; 96]>::new();
         vec.extend_from_slice(public_key.as_ref());
